@@ -43,11 +43,15 @@ def build_config(p):
     missing_to (ms), idle_to (ms))"""
     n = p["slots"]
     sw = ["s_t%d" % i for i in range(n)] + ["s_plunger", "s_lock0", "s_lock1"]
+    plk = p.get("plunger", "coil")                 # coil | mech (mechanical_eject, no coil) | combo (coil + mechanical + launch event)
+    entr = p.get("lock_counter") == "entrance"     # lock counted by an entrance switch + ball_capacity instead of ball switches
+    confirm = p.get("confirm", "target")           # the plunger's confirm_eject_type: target | switch | event
     lines = ["playfields:", "  playfield:", "    default_source_device: plunger", "    tags: default",
              "    enable_ball_search: false", "switches:"]
     for i, s in enumerate(sw):
         lines += ["  %s:" % s, "    number: %d" % (i + 1)]
     lines += ["  s_pf:", "    number: 40", "    tags: playfield_active"]
+    lines += ["  s_lock_entr:", "    number: 44", "  s_confirm:", "    number: 45"]
     lines += ["coils:"]
     for i, c in enumerate(["c_trough", "c_plunger", "c_lock"]):
         lines += ["  %s:" % c, "    number: %d" % (i + 1), "    default_pulse_ms: 20"]
@@ -55,7 +59,15 @@ def build_config(p):
     chain = p["topo"] == "chain"
     common = ["    eject_timeouts: %dms" % p["eject_to"], "    ball_missing_timeouts: %dms" % p["missing_to"],
               "    idle_missing_ball_timeout: %dms" % p["idle_to"], "    confirm_eject_type: target"]
-    lock_lines = ["  lock:", "    ball_switches: s_lock0, s_lock1", "    eject_coil: c_lock",
+    if entr:
+        lock_count = ["    entrance_switch: s_lock_entr", "    ball_capacity: 2"]
+        if p.get("lock_full_to"):
+            lock_count.append("    entrance_switch_full_timeout: %dms" % p["lock_full_to"])
+        if p.get("lock_ignore_ms"):
+            lock_count.append("    entrance_switch_ignore_window_ms: %dms" % p["lock_ignore_ms"])
+    else:
+        lock_count = ["    ball_switches: s_lock0, s_lock1"]
+    lock_lines = ["  lock:"] + lock_count + ["    eject_coil: c_lock",
                   "    eject_targets: %s" % lock_target, "    eject_events: ev_release_lock",
                   "    max_eject_attempts: %d" % p["tries_lock"]] + common
     lines += ["ball_devices:",
@@ -67,9 +79,19 @@ def build_config(p):
         lines += lock_lines
     common2 = ["    eject_timeouts: %dms, %dms" % (p["eject_to"], p["eject_to"]),
                "    ball_missing_timeouts: %dms, %dms" % (p["missing_to"], p["missing_to"])] + common[2:]
-    lines += ["  plunger:", "    ball_switches: s_plunger", "    eject_coil: c_plunger",
+    pl_common = list(common2 if chain else common)
+    if confirm == "switch":
+        pl_common[-1:] = ["    confirm_eject_type: switch", "    confirm_eject_switch: s_confirm"]
+    elif confirm == "event":
+        pl_common[-1:] = ["    confirm_eject_type: event", "    confirm_eject_event: ev_confirm"]
+    pl_eject = [] if plk == "mech" else ["    eject_coil: c_plunger"]
+    if plk in ("mech", "combo"):
+        pl_eject.append("    mechanical_eject: true")
+    if plk == "combo":
+        pl_eject.append("    player_controlled_eject_event: ev_launch")
+    lines += ["  plunger:", "    ball_switches: s_plunger"] + pl_eject + [
               "    eject_targets: %s" % ("playfield, lock" if chain else "playfield"),
-              "    max_eject_attempts: %d" % p["tries_plunger"]] + (common2 if chain else common)
+              "    max_eject_attempts: %d" % p["tries_plunger"]] + pl_common
     if not p.get("lock_first"):
         lines += lock_lines
     start = sw[:p["balls"]]
@@ -82,11 +104,18 @@ def build_config(p):
 def topology(p):
     """physical layout: device -> (slot switches, coil, where the exit leads)"""
     n = p["slots"]
-    return {
+    t = {
         "trough": {"switches": ["s_t%d" % i for i in range(n)], "coil": "c_trough", "exit": "plunger"},
-        "plunger": {"switches": ["s_plunger"], "coil": "c_plunger", "exit": "pf"},
+        "plunger": {"switches": ["s_plunger"], "coil": None if p.get("plunger") == "mech" else "c_plunger", "exit": "pf"},
         "lock": {"switches": ["s_lock0", "s_lock1"], "coil": "c_lock", "exit": "plunger" if p["topo"] == "two_src" else "pf"},
     }
+    if p.get("lock_counter") == "entrance":
+        # no ball switches: two resting places, every entering ball passes the entrance switch; with
+        # entrance_switch_full_timeout the last ball that fits comes to rest ON the entrance switch
+        t["lock"]["switches"] = [None, None]
+        t["lock"]["entrance"] = "s_lock_entr"
+        t["lock"]["sits_when_full"] = bool(p.get("lock_full_to"))
+    return t
 
 
 def edges(p):
@@ -169,12 +198,64 @@ def _install_hooks():
         return await o_li(self)
     BallDevice.lost_idle_ball = lost_idle_ball
 
+    o_mech = BallDevice.handle_mechanical_eject_during_idle
+
+    async def handle_mechanical_eject_during_idle(self):
+        rec("mech_idle", self.name, self.config['eject_targets'][0].name)
+        return await o_mech(self)
+    BallDevice.handle_mechanical_eject_during_idle = handle_mechanical_eject_during_idle
+
+    from mpf.devices.ball_device.entrance_switch_counter import EntranceSwitchCounter as ESC
+    o_hit, o_full, o_left = ESC._entrance_switch_handler, ESC._entrance_switch_full_handler, ESC._ball_left
+
+    def esc_hit(self, switch_name):
+        ignored = bool(self.recycle_clear_time.get(switch_name, False))
+        o_hit(self, switch_name)
+        rec("ec", self.ball_device.name, "hit", 1 if ignored else 0, self._last_count)
+    ESC._entrance_switch_handler = esc_hit
+
+    def esc_full(self):
+        o_full(self)
+        rec("ec", self.ball_device.name, "full", 0, self._last_count)
+    ESC._entrance_switch_full_handler = esc_full
+
+    o_rel = ESC._entrance_switch_released_handler
+
+    def esc_release(self, switch_name):
+        o_rel(self, switch_name)
+        rec("ec", self.ball_device.name, "release", 0, self._last_count)
+    ESC._entrance_switch_released_handler = esc_release
+
+    def esc_left(self, future):
+        o_left(self, future)
+        rec("ec", self.ball_device.name, "left", 0, self._last_count)
+    ESC._ball_left = esc_left
+
+    from mpf.devices.ball_device.incoming_balls_handler import IncomingBall
+    o_ext = IncomingBall._external_confirm
+
+    def _external_confirm(self, future):
+        if not future.cancelled() and self._state == "left_device":
+            rec("ext_signal", self._source.name, self._target.name)
+        return o_ext(self, future)
+    IncomingBall._external_confirm = _external_confirm
+    o_dna = IncomingBall.did_not_arrive
+
+    def did_not_arrive(self):
+        if self._state == "left_device":
+            rec("did_not_arrive", self._source.name, self._target.name)
+        return o_dna(self)
+    IncomingBall.did_not_arrive = did_not_arrive
+
     from mpf.devices.playfield import Playfield
     o_pfa = Playfield.ball_arrived
 
     def pf_ball_arrived(self):
-        if any(b.can_arrive for b in self._incoming_balls):
-            rec("pf_arrived", self.name)
+        for k, b in enumerate(self._incoming_balls):
+            if b.can_arrive:
+                # an incoming ball whose eject has already been confirmed by its external signal is only removed here
+                rec("pf_arrived", self.name, "stale" if b._confirm_future.done() else "live", b.source.name, k)
+                break
         return o_pfa(self)
     Playfield.ball_arrived = pf_ball_arrived
 
@@ -196,6 +277,11 @@ class World:
         self.p = p
         self.topo = topology(p)
         self.slots = {d: [None] * len(t["switches"]) for d, t in self.topo.items()}
+        self.entr_state = {d: None for d in self.topo}     # entrance switch of d: None (open) | "pass" (ball rolling over) | "sit"
+        self.plunges = list(outcomes.get("plunge", []))    # what the player's plunges do, in order (default ok)
+        self.confirms = list(outcomes.get("confirm", []))  # fate of the external confirmation of each plunger eject
+        self.entr_clear = {}
+        self.last_left_kind = {}
         self.kick = {d: None for d in self.topo}          # (slot, ball) that has been kicked and is about to leave
         self.loose = []                                    # balls on the playfield
         self.transit = []                                  # dict(ball, src, dst, kind)
@@ -252,6 +338,52 @@ class World:
     def switch(self, name, state):
         self.run.vm.machine.switch_controller.process_switch(name, state, logical=True)
 
+    def slot_switch(self, d, slot, state):
+        name = self.topo[d]["switches"][slot]
+        if name is not None:
+            self.switch(name, state)
+
+    def _entr_release(self, d):
+        if self.entr_state[d] is not None:
+            self.entr_state[d] = None
+            self.switch(self.topo[d]["entrance"], 0)
+
+    # -- player -> world: the mechanical plunger is pulled and let go
+    def plunge(self, outcome=None):
+        d = "plunger"
+        occ = [i for i, b in enumerate(self.slots[d]) if b is not None]
+        if not occ or self.kick[d] is not None:
+            return False
+        if not self.timing.get("ambiguous") and self.last_left_kind.get(d) == "fallback" and \
+                self.run.vm.machine.ball_devices[d].state in ("ball_left", "failed_confirm"):
+            # the weakly plunged ball is back in the lane but MPF has not seen that eject fail yet; plunging again now makes the
+            # ball absent when the confirm window closes ("ball did not return" -> success by time-out, corrected later by a
+            # capture): the ball-falls-back-after-eject_timeout ambiguity in another guise, not generated
+            return False
+        if outcome is None:
+            outcome = self.plunges.pop(0) if self.plunges else "ok"
+        self.history.append([round(self.now() / GRID), "plunge", d, outcome])
+        self.last_change = self.now()
+        slot = max(occ)
+        dst = d if outcome == "fallback" else self.exit_of(d)
+        self.kick[d] = (slot, self.slots[d][slot], dst, outcome)
+        self.at(self.timing["leave"], self._leave, d)
+        return True
+
+    def _confirm_signal(self, own=False):
+        """the external confirmation of a plunger eject: the lane-exit switch closes / the confirm event is posted"""
+        if own and not self.spurious_confirm_allowed(need_loose=False):
+            # the (late) signal of an earlier ball would arrive while the NEXT ball of the plunger is falling back: MPF would
+            # take it for the confirmation of that eject (a signal carries no identity) - ambiguous, not generated
+            self.note("confirm_signal_suppressed")
+            return
+        self.note("confirm_signal", self.p.get("confirm"))
+        if self.p.get("confirm") == "switch":
+            self.switch("s_confirm", 1)
+            self.switch("s_confirm", 0)
+        else:
+            self.run.vm.machine.events.post("ev_confirm")
+
     # -- MPF -> world
     def pulse(self, d):
         self.history.append([round(self.now() / GRID), "pulse", d])
@@ -260,9 +392,15 @@ class World:
         if not occ or self.kick[d] is not None:
             return                         # nothing to kick / ball already leaving: a pulse is idempotent
         if exit_to != "pf":
-            room = len(self.slots[exit_to]) - self.occupancy(exit_to) - self.heading_to(exit_to)
+            # balls of OTHER sources that are on their way out towards the same device and will only later turn out to fall
+            # back: at the moment of this pulse they are heading there like any other (two sources, one free slot: D16 - found
+            # by the thorough stream, seed 1, as a misattributed arrival when one of the two balls happened to fall back)
+            leaving = {s_ for s_, k in self.kick.items() if k is not None and s_ != d and k[3] == "fallback" and
+                       self.topo[s_]["exit"] == exit_to} | \
+                      {x["src"] for x in self.transit if x["src"] != d and x["kind"] == "fallback" and x.get("exit") == exit_to}
+            room = len(self.slots[exit_to]) - self.occupancy(exit_to) - self.heading_to(exit_to) - len(leaving)
             if room <= 0:
-                srcs = sorted({x["src"] for x in self.transit if x["dst"] == exit_to} |
+                srcs = sorted({x["src"] for x in self.transit if x["dst"] == exit_to} | leaving |
                               {s for s, k in self.kick.items() if k is not None and k[2] == exit_to})
                 detail = [[x["src"], x["dst"], x["kind"], x.get("left_at")] for x in self.transit if x["dst"] == exit_to] + \
                     [[s_, k[2], k[3], None] for s_, k in self.kick.items() if k is not None and k[2] == exit_to]
@@ -291,7 +429,18 @@ class World:
             # ball) for the confirmation of this eject, although the ball comes back: ambiguous, not generated
             self.no_pf_hit_until = max(self.no_pf_hit_until, self.now() + self.p["eject_to"] / 1000.0 + 4 * GRID)
         self.note("left", d, ball, outcome)
-        self.switch(self.topo[d]["switches"][slot], 0)
+        self.last_left_kind[d] = outcome
+        self.slot_switch(d, slot, 0)
+        if self.entr_state[d] == "sit":
+            self._entr_release(d)           # the ball resting on the entrance switch rolls down into the freed place
+        if d == "plunger" and self.p.get("confirm", "target") != "target" and \
+                (outcome in ("ok", "late") or (outcome == "astray" and self.exit_of(d) != "pf")):
+            fate = self.confirms.pop(0) if self.confirms else "ontime"
+            tr["confirm"] = fate
+            if fate == "ontime":
+                self.at(GRID, self._confirm_signal, True)
+            elif fate == "late":
+                self.at(self.p["eject_to"] / 1000.0 + self.timing["late"], self._confirm_signal, True)
         if outcome == "ok":
             dt = self.timing["transit"]
         elif outcome == "fallback":
@@ -327,11 +476,65 @@ class World:
             self.loose.append(ball)
             self.note("bounced_to_pf", dst, ball, src)
             return
+        ent = self.topo[dst].get("entrance")
+        if ent and (self.entr_state[dst] == "pass" or self.now() < self.entr_clear.get(dst, 0.0)):
+            # the previous ball is still rolling over the entrance switch (or the configured ignore window, which exists to
+            # swallow the bounces of ONE ball, is still open): this one queues up behind it
+            tr = {"ball": ball, "src": src, "dst": dst, "kind": tr_kind, "left_at": None, "exit": None}
+            self.transit.append(tr)
+            self.at(2 * GRID, self._arrive, tr)
+            return
         self.slots[dst][free[0]] = ball
         if src != "pf":
             self.delivered[dst] += 1
         self.note("entered", dst, ball, src)
-        self.switch(self.topo[dst]["switches"][free[0]], 1)
+        self.slot_switch(dst, free[0], 1)
+        if ent:
+            full = self.occupancy(dst) == len(self.slots[dst])
+            self.entr_clear[dst] = self.now() + self.p.get("lock_ignore_ms", 0) / 1000.0 + GRID
+            self.switch(ent, 1)
+            if full and self.topo[dst].get("sits_when_full"):
+                self.entr_state[dst] = "sit"
+            else:
+                self.entr_state[dst] = "pass"
+                self.at(self.timing.get("entr_hold", GRID), self._entr_release, dst)
+
+    def spurious_confirm_allowed(self, need_loose=True):
+        """the confirm switch closes / the confirm event arrives without a ball of the plunger having passed: generated
+        except while a ball of the plunger is falling back (then MPF would, correctly by its inputs, count the eject as done:
+        the same ambiguity as a playfield hit by another ball, see pf_switch_allowed)"""
+        if self.timing.get("ambiguous"):
+            return True
+        if need_loose and self.p.get("confirm") == "switch" and not self.loose:
+            return False                # something must close the switch
+        for x in self.transit:
+            if x["src"] == "plunger" and x["kind"] == "fallback":
+                return False
+        k = self.kick["plunger"]
+        if k is not None and k[3] == "fallback":
+            return False
+        m = self.run.vm.machine
+        if self.last_left_kind.get("plunger") == "fallback" and m.ball_devices["plunger"].state in ("ball_left", "failed_confirm"):
+            return False                # the ball is back in the lane but MPF is still waiting for this eject's confirmation
+        waiting = any(ib.source.name == "plunger" and ib._state == "left_device" and ib._external_confirm_future is not None
+                      and not ib._external_confirm_future.done() for ib in m.ball_devices["playfield"]._incoming_balls)
+        if waiting and m.ball_devices["plunger"].state not in ("ball_left", "failed_confirm"):
+            return False                # "ball may have skipped the plunger" wait: the expected ball is in fact still on its way
+        return True
+
+    def capture_allowed(self):
+        """a ball captured from the playfield (drain, lock shot) marks the playfield active exactly like a playfield switch
+        hit: while a ball ejected towards the playfield is falling back (and until its confirm window has closed) that would
+        confirm the eject of the returning ball - same ambiguity as pf_switch_allowed, session-3 stream only"""
+        if self.now() < self.no_pf_hit_until:
+            return False
+        for x in self.transit:
+            if x["kind"] == "fallback" and x.get("exit") == "pf":
+                return False
+        for d, k in self.kick.items():
+            if k is not None and k[3] == "fallback" and self.exit_of(d) == "pf":
+                return False
+        return True
 
     def pf_switch_allowed(self):
         """a playfield switch can only be hit by a loose ball; and while a ball that was ejected towards the playfield
@@ -363,6 +566,30 @@ class World:
             # indistinguishable (switch-counted device without entrance switch) from the ejected ball coming back:
             # MPF then retries while the first ball may still arrive (reported as a finding, not generated here)
             return False
+        if self.timing.get("strict_capture") and not self.timing.get("ambiguous") and not self.capture_allowed():
+            return False
+        if self.topo[dst].get("entrance") and (self.entr_state[dst] is not None or self.now() < self.entr_clear.get(dst, 0.0)):
+            return False                # the entrance is occupied by the previous ball: this shot bounces off (stays loose)
+        if dst == "trough" and self.p.get("plunger") in ("mech", "combo") and not self.timing.get("ambiguous") and \
+                self.run.vm.machine.ball_devices[dst].state in ("ball_left", "failed_confirm"):
+            # same ambiguity as above, seen from MPF's side: with a mechanical plunger a ball can pass the lane faster than the
+            # plunger's count delay, so the trough's eject stays unconfirmed (and the "ball may have skipped" logic runs) long
+            # after the ball is physically gone; a drain in that window is taken for the trough's ball coming back
+            return False
+        if self.topo[dst].get("entrance") and not self.timing.get("ambiguous") and \
+                self.run.vm.machine.ball_devices[dst].state in ("ball_left", "failed_confirm"):
+            # an entrance-counted device counts an entry during its own still unconfirmed eject on top of the ball that has
+            # left: counted_balls reads capacity + 1 until the eject is confirmed (directed witness, not generated here)
+            return False
+        if self.topo[dst].get("sits_when_full") and self.occupancy(dst) + 1 == len(self.slots[dst]) and \
+                not self.timing.get("ambiguous"):
+            dev = self.run.vm.machine.ball_devices[dst]
+            oh = dev.outgoing_balls_handler
+            if dev.state != "idle" or not oh._eject_queue.empty() or oh._current_target is not None:
+                # the ball that fills an entrance-counted device with entrance_switch_full_timeout is only counted when it rests
+                # on the entrance switch for the full time-out; a shorter hit is a bounce by design.  If the device ejects a
+                # ball meanwhile the resting ball rolls down early and is never counted (directed witness, not generated)
+                return False
         ball = self.loose.pop(0)
         self.enter(dst, ball, "pf")
         return True
@@ -370,13 +597,13 @@ class World:
     def escape(self, d):
         """a resting ball bounces out of a device onto the playfield"""
         occ = [i for i, b in enumerate(self.slots[d]) if b is not None]
-        if not occ or self.kick[d] is not None:
-            return False
+        if not occ or self.kick[d] is not None or self.topo[d].get("entrance"):
+            return False                    # (a ball leaving an entrance-counted device unseen cannot be noticed by anything)
         slot = max(occ)
         ball = self.slots[d][slot]
         self.slots[d][slot] = None
         self.note("escaped", d, ball)
-        self.switch(self.topo[d]["switches"][slot], 0)
+        self.slot_switch(d, slot, 0)
         self.loose.append(ball)
         return True
 
@@ -423,6 +650,7 @@ class Run:
         self.transient_negative = 0
         self.last_negative = None
         self.claim_lock = 0     # number of balls the (harness-side) lock logic will claim on entry
+        self.claim_plunger = 0  # same for a ball hold at the plunger lane
         self.crash = None
 
     def log(self, *a):
@@ -441,6 +669,8 @@ class Run:
         m = self.vm.machine
         self.world = World(self, self.p, self.outcomes, self.timing)
         for d, t in self.world.topo.items():
+            if t["coil"] is None:
+                continue
             hw = m.coils[t["coil"]].hw_driver
 
             def mk(d, f):
@@ -456,6 +686,11 @@ class Run:
         ev.add_handler("balldevice_captured_from_playfield", self._captured, priority=1000)
         ev.add_handler("found_new_ball", self._found, priority=1000)
         ev.add_handler("balldevice_lock_ball_enter", self._lock_claim, priority=5)
+        ev.add_handler("balldevice_plunger_ball_enter", self._plunger_claim, priority=5)
+        for d, ticks in (self.p.get("hold_attempt") or {}).items():
+            # something on the machine (a diverter, a queue_relay_player, a show that has to finish) holds the device's
+            # ball_eject_attempt QUEUE event for a while before the eject may go on
+            ev.add_handler("balldevice_%s_ball_eject_attempt" % d, self._mk_hold(d, ticks), priority=1)
         _active[0] = self
         self.vm.align(GRID)
         return self
@@ -488,6 +723,25 @@ class Run:
         if unclaimed_balls and self.claim_lock:
             self.claim_lock -= 1
             self.log("claimed", "lock")
+            return {"unclaimed_balls": unclaimed_balls - 1}
+        return None
+
+    def _mk_hold(self, d, ticks):
+        def hold(queue, **kwargs):
+            queue.wait()
+            self.log("attempt_held", d, ticks)
+            self.world.history.append([round(self.vm.now() / GRID), "attempt_held", d, ticks])
+            self.world.at(ticks * GRID, self._release_hold, d, queue)
+        return hold
+
+    def _release_hold(self, d, queue):
+        self.world.note("attempt_released", d)
+        queue.clear()
+
+    def _plunger_claim(self, unclaimed_balls=0, **kwargs):
+        if unclaimed_balls and self.claim_plunger:
+            self.claim_plunger -= 1
+            self.log("claimed", "plunger")
             return {"unclaimed_balls": unclaimed_balls - 1}
         return None
 
@@ -557,6 +811,8 @@ class Run:
                     "incoming": dev.incoming_balls_handler.get_num_incoming_balls(), "reqs": dev.requested_balls,
                     "queue": pending,      # queued ejects + the current one
                     "cap": dev.capacity}
+            if self.p.get("lock_counter") == "entrance" and d == "lock":
+                s[d]["ec"] = dev.ball_count_handler.counter._last_count
         pf = m.ball_devices["playfield"]
         s["playfield"] = {"balls": pf.balls, "avail": pf.available_balls, "incoming": len(pf._incoming_balls)}
         s["known"] = m.ball_controller.num_balls_known
@@ -582,6 +838,12 @@ def cfg_line(p, snap):
     for d in DEVS:
         toks.append("d,%d,%d,%d" % (snap[d]["cap"], tries[d], snap[d]["counted"]))
     toks.append("p")
+    if p.get("lock_counter") == "entrance":
+        toks.append("ec,%d,%d,%d,%d" % (IDX["lock"], snap["lock"]["cap"], 1 if p.get("lock_full_to") else 0, snap["lock"]["ec"]))
+    if p.get("plunger") in ("mech", "combo"):
+        toks.append("mech,%d" % IDX["plunger"])
+    if p.get("confirm", "target") != "target":
+        toks.append("ext,%d" % IDX["plunger"])
     toks.append("|")
     for a, b in edges(p):
         toks.append("%d>%d" % (IDX[a], IDX[b]))
@@ -596,12 +858,17 @@ def snap_line(s):
                                               x["reqs"]))
     x = s["playfield"]
     parts.append("%d/%d/%d" % (x["balls"], x["avail"], x["incoming"]))
+    if "ec" in s["lock"]:
+        parts.append("ec=%d" % s["lock"]["ec"])
     return " ".join(parts)
 
 
 class Abstraction:
     def __init__(self):
         self.state = {d: "idle" for d in DEVS}
+        self.manual = {d: False for d in DEVS}      # a mechanical eject during idle is under way
+        self.extsig = {d: False for d in DEVS}      # the external confirm signal of the current eject has arrived
+        self.skipping = {d: False for d in DEVS}    # _skipping_ball is waiting
 
     def ops(self, obs):
         out = []
@@ -619,15 +886,54 @@ class Abstraction:
             elif kind == "state":
                 d, st = a
                 self.state[d] = st
+                if st in ("waiting_for_target_ready", "ejecting"):
+                    self.extsig[d] = False
+                if st != "failed_confirm":
+                    self.manual[d] = False
                 m = {"waiting_for_ball": "waitBall", "waiting_for_target_ready": "waitTarget", "ball_left": "ballLeft",
                      "failed_confirm": "confirmTimeout"}.get(st)
-                if m:
+                if m and self.manual[d] and st == "failed_confirm":
+                    out.append("manualTimeout %d" % IDX[d])
+                elif m:
                     out.append("%s %d" % (m, IDX[d]))
             elif kind == "ball_eject_attempt":
                 out.append("%s %d %d %d" % ("retry" if a[2] else "attempt", IDX[a[0]], IDX[a[1]], a[2]))
+            elif kind == "mech_idle":
+                self.manual[a[0]] = True
+                out.append("manualLeft %d %d" % (IDX[a[0]], IDX[a[1]]))
+            elif kind == "ec":
+                out.append("ec %s %d" % (a[1], a[2]))
+            elif kind == "ejecting_ball" and self.manual[a[0]] and self.state[a[0]] == "idle":
+                pass                                # part of manualLeft (already_left eject: no readiness check, no coil)
+            elif kind == "ejecting_ball" and self.state[a[0]] in ("waiting_for_ball", "idle"):
+                self.skipping[a[0]] = True
+                out.append("skipStart %d %d" % (IDX[a[0]], IDX[a[1]]))      # _skipping_ball (mechanical device)
+            elif kind == "ball_eject_success" and self.skipping[a[0]] and self.state[a[0]] in ("waiting_for_ball", "idle"):
+                self.skipping[a[0]] = False
+                out.append("%s %d %d" % ("skipConfirm" if self.state[a[0]] == "waiting_for_ball" else "skipConfirmIdle",
+                                         IDX[a[0]], IDX[a[1]]))
+                self.state[a[0]] = "idle"
+            elif kind == "ball_eject_failed" and self.skipping[a[0]] and self.state[a[0]] in ("waiting_for_ball", "idle"):
+                self.skipping[a[0]] = False
+                out.append("skipFail %d %d" % (IDX[a[0]], IDX[a[1]]))
+            elif kind == "ball_eject_success" and self.manual[a[0]] and self.state[a[0]] == "idle":
+                self.manual[a[0]] = False
+                out.append("confirmManual %d %d" % (IDX[a[0]], IDX[a[1]]))
             elif kind == "ejecting_ball":
                 out.append("ejectStart %d %d" % (IDX[a[0]], IDX[a[1]]))
+            elif kind == "did_not_arrive":
+                if self.manual[a[0]] and self.state[a[0]] == "failed_confirm":
+                    self.manual[a[0]] = False
+                    out.append("manualReturn %d" % IDX[a[0]])   # no failure event: the eject loop takes the request over
+            elif kind == "ext_signal":
+                self.extsig[a[0]] = True
+            elif kind == "ball_eject_success" and self.extsig[a[0]] and \
+                    (self.state[a[0]] == "ball_left" or (self.state[a[0]] == "failed_confirm" and a[1] != "playfield")):
+                self.extsig[a[0]] = False
+                out.append("extConfirm %d %d" % (IDX[a[0]], IDX[a[1]]))
             elif kind == "ball_eject_success":
+                self.manual[a[0]] = False
+                self.extsig[a[0]] = False
                 out.append("%s %d %d" % ("lateConfirm" if self.state[a[0]] == "failed_confirm" else "confirm", IDX[a[0]],
                                          IDX[a[1]]))
             elif kind == "ball_eject_failed":
@@ -661,7 +967,12 @@ class Abstraction:
             elif kind == "found_new_ball":
                 out.append("newBallFound")
             elif kind == "pf_arrived":
-                out.append("pfArrived %d" % IDX[a[0]])
+                if a[1] == "stale":
+                    out.append("pfArrivedStale %d %d" % (IDX[a[0]], IDX[a[2]]))
+                elif a[3] > 0:
+                    out.append("pfArrivedFrom %d %d" % (IDX[a[0]], IDX[a[2]]))     # not the head of the list
+                else:
+                    out.append("pfArrived %d" % IDX[a[0]])
         return out
 
 
@@ -670,6 +981,7 @@ class Abstraction:
 # ---------------------------------------------------------------------------------------------------------------------
 
 MAX_CASE_S = 400.0
+ENV_OPS = ("drain", "lock", "plunge", "launch", "spurious_confirm", "pf_to_plunger", "pf_hit")
 
 
 class CaseResult:
@@ -731,6 +1043,7 @@ def run_case(case, model=None, focus="C04"):
 
 def _run_case(case, run, res, model):
     p = case["p"]
+    timing = case["timing"]
     m = run.vm.machine
     world = run.world
     ab = Abstraction()
@@ -753,8 +1066,14 @@ def _run_case(case, run, res, model):
         for d in DEVS:
             x = s[d]
             if x["balls"] < 0 or x["counted"] < 0 or x["balls"] > x["cap"] or x["counted"] > x["cap"]:
-                res.fail("count-out-of-bounds:" + d, {"device": d, "snap": x, "tick": round(run.vm.now() / GRID),
-                                                      "obs": run.obs[-10:], "world": world.history[-10:]})
+                sig = "count-out-of-bounds:" + d
+                if "ec" in x and x["counted"] == x["cap"] + 1 and 0 <= x["balls"] <= x["cap"] and \
+                        m.ball_devices[d].state in ("ball_left", "failed_confirm"):
+                    sig = "count-above-capacity:counted_balls-entry-during-unconfirmed-eject"
+                res.fail(sig, {"device": d, "snap": x, "tick": round(run.vm.now() / GRID),
+                               "obs": run.obs[-10:], "world": world.history[-10:]})
+                if sig.startswith("count-above-capacity:"):
+                    monitor_on[0] = False       # the ledger keeps counted <= capacity: the rest of the history is outside it
         for ff in world.fired_full:
             if "sig" not in ff:         # classified once, from the history up to the event
                 ff["sig"] = classify_fired_full(ff, p, run.obs, world.history)
@@ -767,6 +1086,15 @@ def _run_case(case, run, res, model):
         if monitor_on[0]:
             new = run.obs[fed[0]:]
             fed[0] = len(run.obs)
+            for o in new:
+                if o[1] == "plan" and o[2][0] in DEVS and s[o[2][0]]["counted"] == 0 and s[o[2][0]]["incoming"] > 0:
+                    # a chain planned from a device that is empty and only EXPECTS its ball (its held ball was used for another
+                    # chain, the replacement is under way): the real device takes the eject as current target at once but keeps
+                    # the state label `idle` while it waits for the incoming ball; the ledger dequeues with the state change.
+                    # Outside the ledger's granularity: the monitor stops here (counted), the oracles go on
+                    monitor_on[0] = False
+                    res.count("monitor_off_plan_from_expected_ball")
+                    return
             ans = None
             for line in ab.ops(new):
                 ans = model.ask(line)
@@ -819,8 +1147,18 @@ def _run_case(case, run, res, model):
         if starved:
             res.fail("stuck:source-not-woken-after-incoming-ball-lost:two-sources", dict(ctxd, waiting_source=starved))
             return
+        if p["topo"] == "chain" and not broken and s["plunger"]["state"] == "waiting_for_target_ready" and \
+                s["lock"]["cap"] - s["lock"]["counted"] > s["lock"]["incoming"] and s["lock"]["state"] == "idle" and \
+                not s["lock"]["queue"] and any(o[1] == "lost_incoming" and o[2] == "lock" for o in run.obs):
+            # the same finding by another route (session 3): the launcher waits in wait_for_ready_to_receive because a ball whose
+            # eject was confirmed by the confirm switch / event is registered as incoming at the lock; that ball times out
+            # (lost_incoming_ball), the room is free, but the waiter is only woken by ball-count changes of the lock
+            res.fail("stuck:source-not-woken-after-incoming-ball-lost:incoming-timeout", dict(ctxd, waiting_source="plunger"))
+            return
         for d in DEVS:
-            if s[d]["balls"] != truth[d]:
+            if s[d]["balls"] != truth[d] and not (d in broken and d == "plunger" and p.get("plunger") in ("mech", "combo")):
+                # (a device that has reported itself broken has stopped its counting tasks - by design; out of a MECHANICAL
+                # one the player can still plunge the ball, so only there can the frozen count differ from the content)
                 res.fail("rest:device-count-differs:" + d, ctxd)
             if s[d]["state"] not in ("idle", "eject_broken") and not _blocked_by_broken(s, d, broken, p) \
                     and not _waits_for_unavailable_ball(s, d, p):
@@ -862,7 +1200,17 @@ def _run_case(case, run, res, model):
                 plans_total += plans
                 # a hop whose ball was declared lost is re-planned to the same node (restore branch): count it as accounted for
                 got = world.delivered["pf" if node == "playfield" else node] + \
-                    sum(1 for o in run.obs if o[1] == "lost_ejected" and o[3] == node)
+                    sum(1 for o in run.obs if o[1] == "lost_ejected" and o[3] == node) + _assumed_skips(run.obs, node)
+                if node != "playfield" and plans:
+                    # the property asks that the target receives a ball per request, not by which route: a ball that went astray
+                    # and rolls into the target from the playfield while a chain to it is open is taken by MPF for the chain's
+                    # ball (balls have no identity) - count every physical entry into the node since the first plan to it
+                    t_first = min(o[0] for o in run.obs if o[1] == "plan" and o[2][-1] == node)
+                    got = sum(1 for h in world.history if h[1] == "entered" and h[2] == node and h[4] != node and h[0] >= t_first) + \
+                        sum(1 for o in run.obs if o[1] == "lost_ejected" and o[3] == node) + _assumed_skips(run.obs, node) + \
+                        sum(1 for o in run.obs if o[1] == "lost_incoming" and o[2] == node)
+                    # (lost_incoming: the source's eject was confirmed by its confirm switch / event, the ball timed out at the
+                    # target - declared lost like a lost_ejected ball, and re-planned if a ball is available)
                 if quiescent and not queued and got < plans:     # every chain MPF committed to this target physically delivered a ball
                     res.fail("rest:requested-ball-not-delivered", dict(ctxd, target=node, planned=plans, delivered=got))
             nreq = sum(1 for o in run.obs if o[1] == "request")
@@ -887,6 +1235,19 @@ def _run_case(case, run, res, model):
                 return False
             if res.blocking:
                 return False
+            if p.get("plunger") in ("mech", "combo") and world.occupancy("plunger") and world.kick["plunger"] is None \
+                    and m.ball_devices["plunger"].state not in ("idle", "eject_broken") and run.vm.now() - t0 <= MAX_CASE_S:
+                # a ball is waiting in the plunger lane for the player: the player eventually plunges (weak fairness of the
+                # environment), and does it properly
+                if case.get("env_offset"):
+                    if not advance(GRID / 8):
+                        return False
+                world.plunge("ok")
+                res.count("auto_plunge")
+                if case.get("env_offset"):
+                    if not advance(GRID - GRID / 8):
+                        return False
+                continue
             if len(run.obs) == n_obs and len(world.history) == n_hist and not world.q:
                 return True
             if run.vm.now() - t0 > MAX_CASE_S:
@@ -912,11 +1273,44 @@ def _run_case(case, run, res, model):
             break
         k = op[0]
         res.count("act_" + k)
+        env = bool(case.get("env_offset")) and k in ENV_OPS
         try:
+            if env:
+                # what the player and the balls do is not synchronised with MPF's clock: environment actions happen 1/128 s
+                # after a grid instant, so a physical event never falls on exactly the same loop instant as an unrelated MPF
+                # timer (those same-instant races are covered by directed witnesses, see C04.WITNESSES)
+                alive = advance(GRID / 8)
+                if not alive:
+                    break
             if k == "add_ball":
                 run.log("request")
                 m.playfield.add_ball(1)
                 expected_pf[0] += 1
+            elif k == "add_ball_pc":
+                run.log("request")
+                m.playfield.add_ball(1, player_controlled=True)     # what the game does at ball start
+                expected_pf[0] += 1
+            elif k == "plunge":
+                if p.get("plunger") in ("mech", "combo") and m.ball_devices["plunger"].state != "eject_broken" and world.plunge():
+                    pass        # (a device that has reported itself broken has stopped counting by design: not plunged)
+                else:
+                    res.count("act_noop")
+            elif k == "launch":
+                if p.get("plunger") == "combo":
+                    m.events.post("ev_launch")
+                else:
+                    res.count("act_noop")
+            elif k == "spurious_confirm":
+                if p.get("confirm", "target") != "target" and world.spurious_confirm_allowed():
+                    world._confirm_signal()
+                else:
+                    res.count("act_noop")
+            elif k == "pf_to_plunger":
+                if world.move_loose_to("plunger"):
+                    if op[1]:
+                        run.claim_plunger += 1
+                else:
+                    res.count("act_noop")
             elif k == "drain":
                 if world.move_loose_to("trough"):
                     expected_pf[0] -= 1
@@ -980,7 +1374,7 @@ def _run_case(case, run, res, model):
                 continue
             else:
                 raise util.InfraError("unknown op %r" % (op,))
-            alive = advance(0)
+            alive = advance(GRID - GRID / 8 if env else 0)
         except util.InfraError:
             raise
         except BaseException as e:
@@ -1002,6 +1396,34 @@ def _run_case(case, run, res, model):
     for o in run.obs:
         if o[1] in ("lost_ejected", "lost_idle", "broken", "found_new_ball", "queue_req", "captured"):
             res.count("mpf_" + o[1])
+
+
+def _assumed_skips(obs, node):
+    """number of times MPF declared, by time-out, that an expected ball has passed a mechanical device unseen and is at `node`
+    (`_skipping_ball`): like a ball declared lost it is a stated assumption, not a delivery; when it is wrong the ball turns
+    up as an unexpected ball and is planned again"""
+    state, skipping, manual, n = {}, {}, {}, 0
+    for i, o in enumerate(obs):
+        k = o[1]
+        if k == "state":
+            state[o[2]] = o[3]
+            manual[o[2]] = False
+        elif k == "mech_idle":
+            manual[o[2]] = True         # a mechanical eject during idle posts the same event pair; it is a real eject
+        elif k == "ball_eject_success" and manual.get(o[2]):
+            manual[o[2]] = False
+        elif k == "ejecting_ball" and manual.get(o[2]):
+            pass
+        elif k == "ejecting_ball" and state.get(o[2], "idle") in ("waiting_for_ball", "idle") and o[4] == 1:
+            skipping[o[2]] = True
+        elif k == "ball_eject_failed" and skipping.get(o[2]):
+            skipping[o[2]] = False
+        elif k == "ball_eject_success" and skipping.get(o[2]) and state.get(o[2], "idle") in ("waiting_for_ball", "idle"):
+            skipping[o[2]] = False
+            by_signal = i > 0 and obs[i - 1][0] == o[0] and obs[i - 1][1] in ("pf_arrived", "ext_signal")
+            if o[3] == node and not by_signal:
+                n += 1
+    return n
 
 
 def classify_fired_full(ff, p, obs, history):
@@ -1050,6 +1472,9 @@ def _waits_for_unavailable_ball(s, d, p):
     if p["topo"] == "chain" and d == "plunger" and s[d]["state"] == "waiting_for_target_ready" and \
             s["lock"]["counted"] >= s["lock"]["cap"] and s["lock"]["state"] == "idle" and not s["lock"]["queue"]:
         return True
+    if p["topo"] == "chain" and d == "trough" and s[d]["state"] == "waiting_for_target_ready" and s["plunger"]["counted"] >= 1 \
+            and _waits_for_unavailable_ball(s, "plunger", p):
+        return True             # ... and the trough's next ball waits behind the launcher that cannot get rid of its ball
     return s[d]["state"] == "waiting_for_ball" and s[d]["counted"] == 0 and \
         all(s[x]["counted"] == 0 and s[x]["state"] in ("idle", "eject_broken") for x in _upstream(p)[d])
 
@@ -1074,8 +1499,14 @@ def _retry_or_report(obs, res, p=None):
     broken = {}
     last_attempt = {}
     maxes = {} if p is None else {"trough": p["tries_trough"], "plunger": p["tries_plunger"], "lock": p["tries_lock"]}
+    state = {}
     for o in obs:
         k = o[1]
+        if k == "state":
+            state[o[2]] = o[3]
+        if k == "ball_eject_failed" and state.get(o[2], "idle") in ("waiting_for_ball", "idle"):
+            continue        # _skipping_ball: the expected ball did not pass the mechanical device unseen after all - no
+            #                 physical eject of this device has failed, the eject loop goes on waiting for its ball
         if k == "ball_eject_failed":
             d, t, n, retry = o[2:]
             if d in pending and pending[d] is not None:
